@@ -222,10 +222,10 @@ CLAIMED = {
         "Theorems for every list of terms and every count / threshold setting: text lists a prefix of the terms sorted by "
         "non-increasing similarity (so it never omits a term more similar than one it lists), only given terms, at least "
         "min(minimum, #terms), at most maximum when minimum <= maximum, and beyond the minimum only terms above the "
-        "threshold; pairs are the n(n-1)/2 pairs of distinct positions. similarity's entries are by definition the dot "
+        "threshold; pairs are exactly (both directions) the n(n-1)/2 pairs of distinct positions. similarity's entries are by definition the dot "
         "products (or cosines, 0 for a zero row) in vocabulary order; the tie compares them for every data shape x "
         "vocabulary form x zero rows x normalize, 0..8 keys, and text's output string character by character over "
-        "19 count pairs x 5 thresholds x 3 term forms. Two defects (list inputs under NumPy 2, empty vocabulary) found "
+        "19 count pairs x 5 thresholds x 4 term forms (incl. more terms than keys), and after rejected additions to the vocabulary. Two defects (list inputs under NumPy 2, empty vocabulary) found "
         "and repaired.",
         "Trusted: Coq kernel + vm_compute; Model/Examine.v; vectors are dyadic so similarities and their formatting are "
         "exact; text(normalize=True) only checked for ordering; an empty *list* vocabulary (no dimensionality) is unclaimed.",
